@@ -328,7 +328,11 @@ func c16Decoding(rep *monitor.Report, gate *[]GateCase) int {
 		}
 	}
 	// documented keys: every key of the example block in the documentation must influence the decoded options
-	doc, err := os.ReadFile("/repo/docs/configuration/nodegroup.md")
+	repo := os.Getenv("VERIF_REPO")
+	if repo == "" {
+		repo = "/repo"
+	}
+	doc, err := os.ReadFile(repo + "/docs/configuration/nodegroup.md")
 	if err != nil {
 		rep.Violate(P, "doc-missing", "cannot read the node group documentation: %v", err)
 		return n
